@@ -9,7 +9,7 @@ from ..astutil import call_chain, chain, self_store
 from ..core import Ctx, Report
 from ..model import norm
 from ..paths import enumerate_paths, no_raise
-from .proto import proto_classes, method, protocol_paths, tags, loop_callbacks, net_mayraise, feasible
+from .proto import connector, proto_classes, method, protocol_paths, tags, loop_callbacks, net_mayraise, feasible
 
 PID = "C10"
 LEVEL = "other"
@@ -38,11 +38,11 @@ def check(ctx: Ctx, rep: Report):
     for fn in res.all_funcs():
         for n in res._own_nodes(fn):
             if isinstance(n, ast.Call) and (call_chain(n) or ("",))[-1] in ("create_datagram_endpoint", "create_connection"):
-                ok = fn.name == "_connect" and fn.cls in classes
+                ok = fn.cls in classes and connector(ctx, fn.cls) is fn
                 rep.check(ok, "C10.R1", "creator:%s" % fn.short, fn.loc(n), "endpoint created in %s" % fn.short,
                           bad="%s creates a transport outside _connect: a second socket could be opened next to the tracked one" % fn.short)
     for ci in classes:
-        fn = method(ctx, ci, "_connect")
+        fn = connector(ctx, ci)
         rep.analysed_add("functions", fn.qualname)
         for p in [q for q in enumerate_paths(prog, fn, no_raise) if feasible(q)]:
             creates = [i for i, ev in enumerate(p.events) if ev.kind == "call" and "create_endpoint" in tags(ev)]
@@ -74,7 +74,8 @@ def check(ctx: Ctx, rep: Report):
                 if not assigns:
                     continue
                 rep.analysed_add("functions", m.qualname)
-                if m.name == "_connect":
+                creator = m is connector(ctx, ci)
+                if creator and m.name != "send_request":
                     continue
                 if m.name == "connection_made":
                     for n in assigns:
@@ -86,6 +87,9 @@ def check(ctx: Ctx, rep: Report):
                 for p in [q for q in enumerate_paths(prog, m, no_raise) if feasible(q)]:
                     for i, ev in enumerate(p.events):
                         if ev.kind == "stmt" and "store:_transport" in tags(ev):
+                            if creator and any(e2.kind == "call" and "create_endpoint" in tags(e2) for e2 in p.events[:i]) \
+                                    and "store:_transport=None" not in tags(ev):
+                                continue      # the endpoint just created is being kept (R1 checks the guard)
                             is_none = "store:_transport=None" in tags(ev)
                             closed = any(e2.kind == "call" and "transport_close" in tags(e2) for e2 in p.events[:i])
                             rep.check(is_none and closed, "C10.R2", "forget:%s.%s:%s" % (ci.name, m.name, p.describe()), m.loc(ev.node),
